@@ -3,7 +3,7 @@ import random
 import common as C
 import gen as G
 
-MODEL_TARGETS = ["model/SchemaJson.vo", "model/Parse.vo", "model/CanonicalForm.vo"]
+MODEL_TARGETS = ["model/SchemaJson.vo", "model/Parse.vo", "model/JsonRead.vo", "proofs/JsonReadSchema.vo", "model/CanonicalForm.vo"]
 COQ_TARGETS = ["props/C09.vo"]
 THEOREMS = [("C09", ["C09_regen", "C09_unnamed_cycle_rejected", "C09_renders_when_wf", "C09_edge_ref", "C09_edge_def", "C09_regen_text_roundtrip", "C09_regen_text_full_names_roundtrip", "C09_text_whitespace_insensitive", "C09_json_text_roundtrip"])]
 PROOF_FILES = ["proofs/SchemaTextProofs.v", "proofs/SchemaJsonDefs.v", "proofs/SchemaJsonGuard.v", "proofs/SchemaJsonCfOk.v", "proofs/SchemaJsonRaw.v",
@@ -11,19 +11,22 @@ PROOF_FILES = ["proofs/SchemaTextProofs.v", "proofs/SchemaJsonDefs.v", "proofs/S
 TRUSTED_BASE = [
     "Coq 8.16.1 kernel; no axioms (Print Assumptions: closed)",
     "hand-written models SchemaJson.v (serialize.rs: named node written once then by reference, namespace-relative spelling, generation-counter cycle guard), Parse.v, CanonicalForm.v tied by the correspondence run (JSON text, re-parsed node kinds / logical types / fingerprint, model vs crate)",
-    "the JSON text <-> document step (serde_json) is outside the model: the theorem is about the document the writer emits",
-    "parsed documents: Python's json module gives the AST of the generated text (self-check of the generator); docgen.serde_num (how serde_json prints the "
-    "number it read from a token) and docgen.json_string / minified (compact printer, cross-checked with the extracted Json.json_text on every document) are Python-side",
+    "the JSON text <-> document step is in the model: model/JsonRead.v (reader, hand-written from serde_json's de.rs / read.rs) and Json.json_text (compact printer); the text theorems "
+    "(C09_regen_text_roundtrip, C09_json_text_roundtrip, C09_text_whitespace_insensitive) are about them; both are tied to serde_json by the runs: every regenerated text is re-parsed by crate "
+    "and model (same node vector, canonical form, fingerprint, reported JSON), every parsed document reaches the model as the TEXT the crate gets (reader tie on hostile texts: C19)",
+    "parsed documents: the generator's AST and Python's json module only cross-check the model's reading of the text (a disagreement is a model difference); docgen.serde_num (how serde_json "
+    "prints the number it read from a token; applied to the number tokens of the model's compact text, the model keeps tokens as written) and docgen.json_string / to_text (independent compact "
+    "printer, cross-checked with the extracted Json.json_text on every document) are Python-side",
 ]
 ASSUMPTIONS = [
     "proved: for every well-formed graph (distinct valid fullnames, keys in range, no unnamed-only cycle, no unconditional record cycle) the regenerated document parses back to a graph with the same canonical form, fingerprint and depth-n unfoldings for every n (names, field order, symbols, sizes, logical types with parameters), including shared and cyclic named types in any namespace arrangement; unnamed-only cycles are errors (C09_unnamed_cycle_rejected)",
     "'parsed, unedited schema reports the original document minified' is storage of the caller's text through serde_transcode: decided on the crate: "
     "Schema::json() (SchemaMut::from_str + freeze) and the avro.schema entry of a written container file header (text.parse::<Schema>(), read back by "
     "the extracted reference parser) = the compact print of the document, text for text, against two oracles: the model's Json.json_text (extracted) of "
-    "the document's AST and an independent Python printer (docgen.minified); strings in every JSON spelling, every free position of a document",
+    "the document the model's reader (JsonRead.json_of_text) read from the same text, and an independent Python printer (docgen.minified) of the generator's AST; strings in every JSON spelling, every free position of a document",
     "numbers: serde_json re-prints the VALUE of a number token, not the token (1e0 -> 1.0, -0 -> -0.0, 1.50 -> 1.5, integers past u64 / i64 and other "
     "tokens are read as f64: 18446744073709551616 -> 1.8446744073709552e+19): 'the original document' is taken up to that re-printing, "
-    "specified Python-side by docgen.serde_num (not covered by the Coq model, whose AST carries the number token as serde_json prints it); the "
+    "specified Python-side by docgen.serde_num (not covered by the Coq model, whose reader keeps the number token as written); the "
     "generated tokens stay in the range where serde_json's default float reader is exact (<= 15 significant digits, |decimal exponent| <= 22, plus "
     "fixed boundary tokens): outside of it the crate's reported number can differ from the document's in the last digit (1.5e-300 is reported as "
     "1.4999999999999998e-300: serde_json without the float_roundtrip feature)",
@@ -82,7 +85,11 @@ def parsed_documents(ctx, rng, violations, diffs, samples, dist, distinct):
             raise AssertionError("docgen.to_text wrote a text that does not read back as the document: %r" % t[:300])
         texts.append(t)
     plines = ["parse " + C.hx(t) for t in texts]
-    mlines = ["parse " + D.to_sx(D.norm_numbers(doc)) for _, doc in docs]
+    # the model reads the SAME text with its own reader (JsonRead.json_of_text) and prints the document it read (Json.json_text, number
+    # tokens as written); Python's AST of the document is a cross-check of that reading only
+    import jsontext as JT
+    mlines = ["parse (text %s)" % C.hx(t) for t in texts]
+    diffs.extend(JT.ast_cross_check(texts, [doc for _, doc in docs], "C09 parsed documents"))
     clines = ["cw (json %s) null 4096 %s vec (meta)" % (C.hx(t), C.hx(cont.SYNC)) for t in texts]
     pimpl = C.run_parallel(C.AVRODRIVE, plines)
     pmodel = C.run_parallel(C.AVROMODEL, mlines)
@@ -110,9 +117,13 @@ def parsed_documents(ctx, rng, violations, diffs, samples, dist, distinct):
         if got != want:
             violations.append({"impl_case": line, "what": "the JSON reported by a parsed, unedited schema (SchemaMut::from_str, freeze, Schema::json) "
                                "is not the original document minified", "document": t[:800], "got": got[:800], "expected": want[:800]})
-        if pm[0] != "ok" or pm[4] != pi[4]:
+        if pm[0] != "ok" or JT.norm_hex(pm[4]) != pi[4]:
             diffs.append({"impl_case": line, "model_case": mline, "impl": ri[:600], "model": rm[:600],
-                          "what": "reported JSON / outcome of a parsed document: model (Json.json_text of the document) vs crate"})
+                          "what": "reported JSON / outcome of a parsed document: model (Json.json_text of the document JsonRead.json_of_text read from "
+                                  "the text, number tokens re-printed by docgen.serde_num) vs crate"})
+        elif pm[4] != C.hx(D.to_text(doc)):
+            diffs.append({"impl_case": line, "model_case": mline, "impl": C.hx(D.to_text(doc)), "model": rm[:600],
+                          "what": "the model's compact print (Json.json_text) of the document it read differs from the independent Python printer (docgen.to_text / json_string)"})
         rf = fmodel.get(i)
         hdr = None
         if rf is not None:
@@ -220,9 +231,17 @@ def run(ctx):
         re_lines.append("parse " + pi[2])
         re_meta.append((line, pi, g, cls))
     rep = C.run_parallel(C.AVRODRIVE, re_lines)
+    # the regenerated TEXT read back by the model as well (C09_regen_text_roundtrip is a statement about JsonRead.json_of_text on that
+    # text): same outcome, node vector, canonical form and fingerprint as the crate's re-parse
+    repm = C.run_parallel(C.AVROMODEL, ["parse (text %s)" % m[1][2] for m in re_meta])
     again = []
-    for res, (line, pi, g, cls) in zip(rep, re_meta):
+    for res, resm, rl, (line, pi, g, cls) in zip(rep, repm, re_lines, re_meta):
         pr = C.parse_sx(res)[0]
+        prm = C.parse_sx(resm)[0]
+        if pr[0] in ("ok", "err", "freeze-err") and ((pr[0] == "ok") != (prm[0] == "ok") or
+                (pr[0] == "ok" and (C.show_sx(pr[1]) != C.show_sx(prm[1]) or pr[2] != prm[2] or pr[3] != prm[3] or pr[4] != prm[4]))):
+            diffs.append({"impl_case": rl, "model_case": "parse (text %s)" % pi[2], "impl": res[:500], "model": resm[:500],
+                          "what": "re-parse of a regenerated document: model (text reader + parser) vs crate"})
         doc = C.unhex(pi[2]).decode("utf-8", "replace")
         if pr[0] != "ok":
             # names that are not spellable in a document (empty, leading/trailing/double dots, or equal to a type name) are outside the
@@ -241,7 +260,7 @@ def run(ctx):
         if len(samples) < 5:
             samples.append({"json": doc[:300]})
     n_parsed = parsed_documents(ctx, rng, violations, diffs, samples, dist, distinct)
-    return {"evaluations": len(lines) + len(jlines) + len(re_lines) + n_parsed, "distinct_nontrivial": len(distinct),
+    return {"evaluations": len(lines) + len(jlines) + 2 * len(re_lines) + n_parsed, "distinct_nontrivial": len(distinct),
             "rule": "node graphs built through the API: name-rule graphs (colliding simple names over several namespaces incl. null-namespace records "
                     "inside namespaces, named types referenced several times through different containers, nodes stored in any order, optional "
                     "extra cycle through containers / records that passes named types every round), valid schemas with heavy sharing and three namespace arrangements, and arbitrary node "
